@@ -60,14 +60,20 @@ theorem reach_addExisting {c : TCfg Wt} {y : TTx W Wt} (h : Reach D x y) {wid : 
     simp only
     split
     · -- conversion to an IFBTree
-      refine Reach.step (.wiSet wid (.ref (y.alloc m).2)) ((h.alloc m).treePut _ hd f) ⟨?_, ?_⟩
+      refine Reach.step (.wiSet wid (.ref (y.alloc m).2)) ((h.alloc m).treePut _ hd f (Or.inr ⟨rfl, by simp [TTx.alloc, TTx.nt, AMap.get_set]⟩)) ⟨?_, ?_, ?_⟩
       rotate_left
       · intro o e; cases e
-        refine Or.inr ?_
-        unfold TTx.treePut
-        split
-        · simp [TTx.alloc, TTx.nt, AMap.get_set]
-        · simp [TTx.alloc, TTx.nt, AMap.get_set]
+        refine Or.inr ⟨?_, ?_⟩
+        · unfold TTx.treePut
+          split
+          · simp [TTx.alloc, TTx.nt, AMap.get_set]
+          · simp [TTx.alloc, TTx.nt, AMap.get_set]
+        · unfold TTx.treePut
+          split <;> rfl
+      · intro o e
+        rw [treePut_wordinfo] at e
+        have e' : AMap.get y.heap.wordinfo wid = some (.ref o) := e
+        rw [hv] at e'; cases e'
       intro d' hd'
       have hne : d' ≠ d := fun e => hd' (e ▸ hd)
       have hp : (((y.alloc m).1.treePut (y.alloc m).2 d f).heap.posting wid) = m := by
@@ -82,12 +88,14 @@ theorem reach_addExisting {c : TCfg Wt} {y : TTx W Wt} (h : Reach D x y) {wid : 
     · exact Reach.step (.dictPutR wid m d f) h ⟨hv, hd⟩
   | ref o =>
     simp only
-    refine Reach.step (.wiSet wid (.ref o)) (h.treePut o hd f) ⟨?_, ?_⟩
+    refine Reach.step (.wiSet wid (.ref o)) (h.treePut o hd f (Or.inl ⟨wid, hv⟩)) ⟨?_, ?_, ?_⟩
     · intro d' _
       unfold THeap.posting pvalPosting
       rw [treePut_wordinfo, hv]
     · intro o' e; cases e
       exact Or.inl (by rw [treePut_wordinfo]; exact hv)
+    · intro o' e
+      rw [treePut_wordinfo, hv] at e; cases e; rfl
 
 theorem reach_addWordinfo {c : TCfg Wt} (hc : c.Faithful) {y : TTx W Wt} (h : Reach D x y) (wid : Nat) (f : Wt)
     {d : Int} (hd : D d) : Reach D x (TTx.addWordinfo c y wid f d) := by
@@ -96,7 +104,10 @@ theorem reach_addWordinfo {c : TCfg Wt} (hc : c.Faithful) {y : TTx W Wt} (h : Re
   cases hg : AMap.get (y.rd (.wi wid)).heap.wordinfo wid with
   | none =>
     simp only
-    refine Reach.step (.wiSet wid (.dict [(d, f)])) ((h.rd _).wcChange 1) ⟨?_, fun o e => by cases e⟩
+    refine Reach.step (.wiSet wid (.dict [(d, f)])) ((h.rd _).wcChange 1) ⟨?_, (fun o e => by cases e),
+      (fun o e => by
+        have e' : AMap.get (y.rd (.wi wid)).heap.wordinfo wid = some (.ref o) := e
+        rw [hg] at e'; cases e')⟩
     intro d' hd'
     have hne : d ≠ d' := fun e => hd' (e ▸ hd)
     have : ((y.rd (.wi wid)).wcChange 1).heap.posting wid = [] := by
@@ -117,7 +128,8 @@ theorem reach_massRound {c : TCfg Wt} (hc : c.Faithful) {d : Int} (hd : D d) {y 
   cases hg : AMap.get (y.rd (.wi wid)).heap.wordinfo wid with
   | none =>
     simp only
-    refine Reach.step (.wiSet wid (.dict [(d, f)])) (h.rd _) ⟨?_, fun o e => by cases e⟩
+    refine Reach.step (.wiSet wid (.dict [(d, f)])) (h.rd _) ⟨?_, (fun o e => by cases e),
+      (fun o e => by rw [hg] at e; cases e)⟩
     intro d' hd'
     have hne : d ≠ d' := fun e => hd' (e ▸ hd)
     have : (y.rd (.wi wid)).heap.posting wid = [] := by
@@ -170,15 +182,33 @@ theorem reach_delWordinfo {y : TTx W Wt} (h : Reach D x y) (wid : Nat) {d : Int}
       simp only
       split
       · exact (h.rd _).rd _
-      · have hr := (((h.rd (.wi wid)).rd (.tree o d)).treeDel o hd).rd (.whole o)
+      · have hr := (((h.rd (.wi wid)).rd (.tree o d)).treeDel o hd (Or.inl ⟨wid, hg⟩)).rd (.whole o)
         split
-        · refine Reach.step (.wiSet wid (.ref o)) hr ⟨?_, fun o' e => by cases e; exact Or.inl hg⟩
+        · refine Reach.step (.wiSet wid (.ref o)) hr ⟨?_, (fun o' e => by cases e; exact Or.inl hg),
+            (fun o' e => by
+              have e' : AMap.get (y.rd (.wi wid)).heap.wordinfo wid = some (.ref o') := e
+              rw [hg] at e'; cases e'; rfl)⟩
           intro d' _
           unfold THeap.posting pvalPosting
           show _ = (match AMap.get (y.rd (.wi wid)).heap.wordinfo wid with | some (.dict m) => m | some (.ref o) => _ | none => _).get d'
           rw [hg]
         · next hne =>
-          refine Reach.wcChange (Reach.step (.wiErase wid) hr ?_) _
+          refine Reach.wcChange (Reach.step (.wiErase wid) hr ⟨?_, ?_⟩) _
+          rotate_left
+          · intro o' e
+            have e' : AMap.get (y.rd (.wi wid)).heap.wordinfo wid = some (.ref o') := e
+            rw [hg] at e'; cases e'
+            have he : ((((y.rd (.wi wid)).rd (.tree o d)).treeDel o d).rd (.whole o)).treeOf o = [] := by
+              by_cases e : ((((y.rd (.wi wid)).rd (.tree o d)).treeDel o d).rd (.whole o)).treeOf o = []
+              · exact e
+              · exact absurd e hne
+            have hsome : AMap.get ((((y.rd (.wi wid)).rd (.tree o d)).treeDel o d).rd (.whole o)).heap.tree o =
+                some (AMap.erase ((y.rd (.wi wid)).rd (.tree o d) |>.treeOf o) d) := by
+              simp [TTx.treeDel, TTx.rd, TTx.nt, AMap.get_set]
+            rw [hsome]
+            unfold TTx.treeOf at he
+            rw [hsome] at he
+            simpa using he
           intro d' _
           have he : ((((y.rd (.wi wid)).rd (.tree o d)).treeDel o d).rd (.whole o)).treeOf o = [] := by
             by_cases e : ((((y.rd (.wi wid)).rd (.tree o d)).treeDel o d).rd (.whole o)).treeOf o = []
